@@ -21,6 +21,8 @@ const (
 	kSlice
 	kIndex
 	kLookup
+	kExtractLookup  // t = lookup x[y],ok ; extract t #0
+	kExtractAssert  // t = typeassert x,ok ; extract t #0
 	kNumKinds
 )
 
@@ -55,9 +57,15 @@ func c08MakeInstr(kind int, x, y ssa.Value) (ssa.Instruction, []ssa.Value) {
 	case kIndex:
 		i := &ssa.Index{X: x, Index: y}
 		return i, []ssa.Value{x, y}
-	default:
+	case kLookup:
 		i := &ssa.Lookup{X: x, Index: y}
 		return i, []ssa.Value{x, y}
+	case kExtractLookup:
+		i := &ssa.Lookup{X: x, Index: y, CommaOk: true}
+		return i, []ssa.Value{x, y}
+	default:
+		i := &ssa.TypeAssert{X: x, CommaOk: true}
+		return i, []ssa.Value{x}
 	}
 }
 
@@ -68,7 +76,10 @@ func c08Straight(nInstr, nRes int, pathSensitive bool) {
 	verifSetUnexported(p0, "parent", fn)
 	verifSetUnexported(p1, "parent", fn)
 	intT := types.Type(types.Typ[types.Int])
-	verifSetUnexported(p0, "typ", intT)
+	// the first parameter is an int, a string or an array (the types an Index / Lookup / Slice operand can have
+	// without being pointer-like); everything computed from the parameters is typed int
+	p0T := []types.Type{intT, types.Typ[types.String], types.NewArray(intT, 4)}[verifPick("param0-type", 0, 2)]
+	verifSetUnexported(p0, "typ", p0T)
 	verifSetUnexported(p1, "typ", intT)
 	fn.Params = []*ssa.Parameter{p0, p1}
 	values := []ssa.Value{p0, p1}
@@ -76,9 +87,9 @@ func c08Straight(nInstr, nRes int, pathSensitive bool) {
 	derives := [][2]bool{{true, false}, {false, true}}
 	var instrs []ssa.Instruction
 	for n := 0; n < nInstr; n++ {
-		kind := verifIntIn("kind", 0, kNumKinds-1)
-		xi := verifIntIn("x", 0, len(values)-1)
-		yi := verifIntIn("y", 0, len(values)-1)
+		kind := verifPick("kind", 0, kNumKinds-1)
+		xi := verifPick("x", 0, len(values)-1)
+		yi := verifPick("y", 0, len(values)-1)
 		ins, data := c08MakeInstr(kind, values[xi], values[yi])
 		var d [2]bool
 		for _, op := range data {
@@ -91,13 +102,22 @@ func c08Straight(nInstr, nRes int, pathSensitive bool) {
 		}
 		verifSetUnexported(ins, "typ", intT)
 		instrs = append(instrs, ins)
-		values = append(values, ins.(ssa.Value))
+		if kind == kExtractLookup || kind == kExtractAssert {
+			// the value used downstream is component #0 of the tuple
+			ex := &ssa.Extract{Tuple: ins.(ssa.Value), Index: 0}
+			verifSetUnexported(ins, "typ", types.Type(types.NewTuple(types.NewVar(token.NoPos, nil, "", intT), types.NewVar(token.NoPos, nil, "", types.Typ[types.Bool]))))
+			verifSetUnexported(ex, "typ", intT)
+			instrs = append(instrs, ex)
+			values = append(values, ex)
+		} else {
+			values = append(values, ins.(ssa.Value))
+		}
 		derives = append(derives, d)
 	}
 	ret := &ssa.Return{}
 	var retIdx []int
 	for k := 0; k < nRes; k++ {
-		ri := verifIntIn("ret", 0, len(values)-1)
+		ri := verifPick("ret", 0, len(values)-1)
 		ret.Results = append(ret.Results, values[ri])
 		retIdx = append(retIdx, ri)
 	}
@@ -130,7 +150,7 @@ func c08Straight(nInstr, nRes int, pathSensitive bool) {
 }
 
 // Harness_C08_whole_1: one instruction, one to three results.
-func Harness_C08_whole_1() { c08Straight(1, verifIntIn("results", 1, 3), false) }
+func Harness_C08_whole_1() { c08Straight(1, verifPick("results", 1, 3), false) }
 
 // Harness_C08_whole_2_T: two chained instructions, two results (thorough).
 func Harness_C08_whole_2_T() { c08Straight(2, 2, verifBool("path-sensitive")) }
